@@ -206,10 +206,11 @@ fn build_binary_op(
         let self_ty = with_ref(&this_ty, lhs_is_ref);
         let rhs_ty = with_ref(&this_ty, rhs_is_ref);
         let mut wcb = WhereClauseBuilder::new(&generics);
+        wcb.expand_self_to(&this_ty);
         let use_bounds = e.push_bounds_to(&mut wcb);
         let mut values = Vec::new();
         for field in fields {
-            let field_ty = &field.field.ty;
+            let field_ty = &expand_self(&field.field.ty, &this_ty);
             let lhs = with_ref(&member(quote!(self), field), lhs_is_ref);
             let rhs = with_ref(&member(quote!(__rhs), field), rhs_is_ref);
             let lhs_ty = with_ref_type(field_ty, lhs_is_ref);
@@ -260,10 +261,11 @@ fn build_assign_op(
     let build = |rhs_is_ref: bool| {
         let rhs_ty = with_ref(&this_ty, rhs_is_ref);
         let mut wcb = WhereClauseBuilder::new(&generics);
+        wcb.expand_self_to(&this_ty);
         let use_bounds = e.push_bounds_to(&mut wcb);
         let mut exprs = Vec::new();
         for field in fields {
-            let field_ty = &field.field.ty;
+            let field_ty = &expand_self(&field.field.ty, &this_ty);
             let lhs = member(quote!(self), field);
             let rhs = with_ref(&member(quote!(__rhs), field), rhs_is_ref);
             let rhs_ty = with_ref_type(field_ty, rhs_is_ref);
@@ -307,10 +309,11 @@ fn build_unary_op(
     let build = |lhs_is_ref: bool| {
         let self_ty = with_ref(&this_ty, lhs_is_ref);
         let mut wcb = WhereClauseBuilder::new(&generics);
+        wcb.expand_self_to(&this_ty);
         let use_bounds = e.push_bounds_to(&mut wcb);
         let mut values = Vec::new();
         for field in fields {
-            let field_ty = &field.field.ty;
+            let field_ty = &expand_self(&field.field.ty, &this_ty);
             let lhs = with_ref(&member(quote!(self), field), lhs_is_ref);
             let lhs_ty = with_ref_type(field_ty, lhs_is_ref);
             values.push(quote!(<#lhs_ty as #trait_>::#func_name(#lhs)));
